@@ -23,6 +23,7 @@ import (
 	"sync"
 	"time"
 
+	"github.com/goccy/go-yaml"
 	"github.com/spf13/cast"
 	"rivaas.dev/config"
 	"verif/harness/hx"
@@ -31,9 +32,12 @@ import (
 // ---------------------------------------------------------------- the case
 
 type srcT struct {
-	Kind string         // map | json | yaml | env
+	Kind string         // map | static | json | yaml | env
 	Fail bool           // the source returns an error in this Load
 	M    map[string]any `json:",omitempty"` // what it returns otherwise (nil = a nil map)
+	// Cancel: the (scripted) source cancels the context of the Load while it is being read and then
+	// returns its map: the next source is not read any more, the Load fails with ctx.Err()
+	Cancel bool `json:",omitempty"`
 }
 
 type readerT struct {
@@ -78,6 +82,16 @@ type Bound struct {
 	Labels map[string]string `config:"labels"`
 	Peer   *Server           `config:"peer"`
 	Reject bool              `config:"reject"`
+	Since  time.Time         `config:"since"`
+	Wait   time.Duration     `config:"wait"`
+	Meta   Meta              `config:"meta"`
+}
+
+// Meta mixes exported fields with an unexported one and a field the decoder is told to skip.
+type Meta struct {
+	Owner  string `config:"owner"`
+	hidden int
+	Skip   string `config:"-"`
 }
 
 func (b *Bound) Validate() error {
@@ -110,6 +124,10 @@ var boundFields = []fieldT{
 	{"labels", []string{"labels"}, func(b *Bound) any { return b.Labels }},
 	{"peer", []string{"peer"}, func(b *Bound) any { return b.Peer }},
 	{"reject", []string{"reject"}, func(b *Bound) any { return b.Reject }},
+	{"since", []string{"since"}, func(b *Bound) any { return b.Since.UTC().Format(time.RFC3339) }},
+	{"wait", []string{"wait"}, func(b *Bound) any { return b.Wait.String() }},
+	{"meta.owner", []string{"meta", "owner"}, func(b *Bound) any { return b.Meta.Owner }},
+	{"meta.skip", []string{"meta", "-"}, func(b *Bound) any { return b.Meta.Skip + strconv.Itoa(b.Meta.hidden) }},
 }
 
 func renderField(v any) string {
@@ -145,8 +163,21 @@ func (s *scriptSrc) Load(ctx context.Context) (map[string]any, error) {
 	if cur.Fail {
 		return nil, errors.New("source failure (injected)")
 	}
+	if cur.Cancel {
+		if cancel, ok := ctx.Value(cancelKey{}).(context.CancelFunc); ok {
+			cancel()
+		}
+	}
 	return deepCopyMap(cur.M), nil
 }
+
+type cancelKey struct{}
+
+// staticSrc hands out the very same map on every Load, like config.TestSource and any source that
+// caches what it parsed. Load must not modify it: the next Load would start from the modified map.
+type staticSrc struct{ m map[string]any }
+
+func (s *staticSrc) Load(context.Context) (map[string]any, error) { return s.m, nil }
 
 func deepCopy(v any) any {
 	switch x := v.(type) {
@@ -237,6 +268,7 @@ type runT struct {
 	envPref string
 	hooks   struct{ src0, val0, validate func() }
 	real    []config.Source // the real (file/env) source objects, for asking them what they return
+	written map[int][]byte  // what was written into the file of source i for the current Load
 }
 
 func (r *runT) build(c *caseT, withHooks bool) error {
@@ -264,6 +296,8 @@ func (r *runT) build(c *caseT, withHooks bool) error {
 			opts = append(opts, config.WithFile(filepath.Join(r.dir, "s"+strconv.Itoa(i)+"."+kind)))
 		case "env":
 			opts = append(opts, config.WithEnv(r.envPref))
+		case "static":
+			opts = append(opts, config.WithSource(&staticSrc{m: deepCopyMap(kinds[i].M)}))
 		default:
 			s := &scriptSrc{cur: r.cur[i], race: r.race[i]}
 			if i == 0 && withHooks {
@@ -286,6 +320,7 @@ func (r *runT) build(c *caseT, withHooks bool) error {
 				if h := r.hooks.val0; h != nil {
 					h()
 				}
+				r.inflightGets() // a validator that compares with the running configuration
 			}
 			if isTrue(m, "vpanic"+strconv.Itoa(i)) {
 				panic("validator panic (injected)")
@@ -331,6 +366,10 @@ func (r *runT) stage(l *loadT) {
 			}
 			b, _ := json.Marshal(m) // JSON is YAML
 			_ = os.WriteFile(p, b, 0o600)
+			if r.written == nil {
+				r.written = map[int][]byte{}
+			}
+			r.written[i] = b
 		case "env":
 			for _, e := range os.Environ() {
 				if strings.HasPrefix(e, r.envPref) {
@@ -345,33 +384,55 @@ func (r *runT) stage(l *loadT) {
 	}
 }
 
-// returned asks what source i hands to Load in the current stage (for file/env: the real source).
+// returned says what source i hands to Load in the current stage — computed here, not by the code
+// under test: a scripted or static source returns its map; a JSON file is decoded with
+// encoding/json, a YAML file with the YAML library, straight from the bytes that were written; the
+// environment source's documented rule (strip the prefix, lower-case, split at "_", nest) is
+// re-implemented below.
 func (r *runT) returned(i int, s *srcT) (map[string]any, bool) {
-	switch s.Kind {
-	case "json", "yaml":
-		var opt config.Option
-		opt = config.WithFile(filepath.Join(r.dir, "s"+strconv.Itoa(i)+"."+s.Kind))
-		probe, _ := config.New(opt)
-		if err := probe.Load(context.Background()); err != nil {
-			return nil, false
-		}
-		return rawValues(probe, s), true
-	case "env":
-		probe, _ := config.New(config.WithEnv(r.envPref))
-		if err := probe.Load(context.Background()); err != nil {
-			return nil, false
-		}
-		return *probe.Values(), true
-	}
 	if s.Fail {
 		return nil, false
 	}
+	switch s.Kind {
+	case "json":
+		var m map[string]any
+		if err := json.Unmarshal(r.written[i], &m); err != nil {
+			return nil, false
+		}
+		return m, true
+	case "yaml":
+		var m map[string]any
+		if err := yaml.Unmarshal(r.written[i], &m); err != nil {
+			return nil, false
+		}
+		return m, true
+	case "env":
+		out := map[string]any{}
+		for k, v := range s.M {
+			var parts []string
+			for _, p := range strings.Split(strings.ToLower(strings.TrimSpace(k)), "_") {
+				if p != "" {
+					parts = append(parts, p)
+				}
+			}
+			if len(parts) == 0 {
+				continue
+			}
+			cur := out
+			for _, p := range parts[:len(parts)-1] {
+				next, ok := cur[p].(map[string]any)
+				if !ok {
+					next = map[string]any{}
+					cur[p] = next
+				}
+				cur = next
+			}
+			cur[parts[len(parts)-1]] = strings.TrimSpace(fmt.Sprint(v))
+		}
+		return out, true
+	}
 	return s.M, true
 }
-
-// rawValues: a single-source Config returns the source's map with lower-cased keys; the model
-// lower-cases again (idempotent), so this is the source's map as far as the model can tell.
-func rawValues(c *config.Config, _ *srcT) map[string]any { return *c.Values() }
 
 type loadObs struct {
 	failed bool
@@ -416,6 +477,17 @@ func typedOK(cfg *config.Config, keys []string) bool {
 
 func snapshot(cfg *config.Config) map[string]any { return deepCopyMap(*cfg.Values()) }
 
+// inflightGets reads every probe key through Get (and a typed getter) while a Load is running. The
+// results are not part of the observation; reading must simply not influence anything: whatever a
+// Get returns after the Load is compared with the model as usual.
+func (r *runT) inflightGets() {
+	for _, k := range r.c.Keys {
+		_ = r.cfg.Get(k)
+		_ = r.cfg.String(k)
+		_ = r.cfg.IntOr(k, 1)
+	}
+}
+
 func (r *runT) runLoad(l *loadT) (o loadObs) {
 	r.stage(l)
 	o.seen = make([]map[string]any, len(l.Readers))
@@ -438,7 +510,7 @@ func (r *runT) runLoad(l *loadT) (o loadObs) {
 			for j, rd := range l.Readers {
 				if rd.Place == place {
 					done := make(chan struct{})
-					go func() { o.seen[j] = snapshot(r.cfg); close(done) }()
+					go func() { o.seen[j] = snapshot(r.cfg); r.inflightGets(); close(done) }()
 					<-done
 				}
 			}
@@ -517,7 +589,9 @@ func (r *runT) runLoad(l *loadT) (o loadObs) {
 		lw.Wait()
 		o.failB = errB != nil
 	} else {
-		err = r.cfg.Load(context.Background())
+		ctx, cancel := context.WithCancel(context.Background())
+		err = r.cfg.Load(context.WithValue(ctx, cancelKey{}, cancel))
+		cancel()
 	}
 	close(stop)
 	wg.Wait()
@@ -648,12 +722,19 @@ func emit(id string, c caseT, st *hx.Stats) string {
 		// one) and what a fresh Config makes of it
 		writeInput := func(second bool) {
 			l.Tok("S").Nat(len(r.cur))
+			cancelled := false
 			for i := range r.cur {
 				s := r.cur[i]
 				if second {
 					s = r.race[i]
 				}
 				m, ok := r.returned(i, s)
+				if cancelled {
+					ok = false // the context was cancelled while the previous source was read
+				}
+				if s.Cancel && !second {
+					cancelled = true
+				}
 				if !ok {
 					l.Tok("F")
 					faults++
@@ -874,6 +955,15 @@ func genBindable(r *hx.Rand, m map[string]any) {
 	if r.Chance(1, 5) {
 		put("peer", hx.Pick(r, []any{map[string]any{"host": "p"}, map[string]any{"port": 1}}))
 	}
+	if r.Chance(1, 4) {
+		put("since", hx.Pick(r, []any{"2024-01-02T03:04:05Z", "2031-12-31T23:59:59Z"}))
+	}
+	if r.Chance(1, 5) {
+		put("wait", hx.Pick(r, []any{"1500ms", "2h", 0}))
+	}
+	if r.Chance(1, 5) {
+		put("meta", hx.Pick(r, []any{map[string]any{"owner": "me"}, map[string]any{"Owner": ""}, map[string]any{}}))
+	}
 }
 
 func genCase(r *hx.Rand, tier string) caseT {
@@ -884,13 +974,28 @@ func genCase(r *hx.Rand, tier string) caseT {
 	nsrc := r.Range(1, 4)
 	kinds := make([]string, nsrc)
 	for i := range kinds {
-		switch r.Intn(8) {
+		switch r.Intn(9) {
 		case 0:
 			kinds[i] = "json"
 		case 1:
 			kinds[i] = "yaml"
+		case 2, 3:
+			kinds[i] = "static"
 		default:
 			kinds[i] = "map"
+		}
+	}
+	statics := make([]map[string]any, nsrc)
+	for i := range statics {
+		if kinds[i] == "static" {
+			// what a caching source parsed once: lower-case keys mostly, nested maps
+			statics[i] = genMap(r, 0)
+			if c.Bound || r.Chance(1, 2) {
+				genBindable(r, statics[i])
+			}
+			if r.Chance(1, 2) {
+				statics[i] = lowerKeys(statics[i])
+			}
 		}
 	}
 	if nsrc >= 2 && r.Chance(1, 6) {
@@ -903,6 +1008,8 @@ func genCase(r *hx.Rand, tier string) caseT {
 		for i := 0; i < nsrc; i++ {
 			s := srcT{Kind: kinds[i]}
 			switch {
+			case kinds[i] == "static":
+				s.M = statics[i]
 			case kinds[i] == "env":
 				s.M = map[string]any{}
 				for n := r.Range(0, 3); n > 0; n-- {
@@ -947,7 +1054,7 @@ func genCase(r *hx.Rand, tier string) caseT {
 				}
 				s.M[k] = v
 			}
-			if s.M != nil && kinds[i] != "env" {
+			if s.M != nil && kinds[i] != "env" && kinds[i] != "static" {
 				if c.Schema && r.Chance(1, 12) {
 					set("schemafail", r.Chance(3, 4))
 				}
@@ -963,8 +1070,11 @@ func genCase(r *hx.Rand, tier string) caseT {
 					set("server", hx.Pick(r, []any{"not-a-map", map[string]any{"port": "abc"}}))
 				}
 			}
-			if r.Chance(1, 18) {
+			if r.Chance(1, 18) && kinds[i] != "static" && kinds[i] != "env" { // those two cannot be made to fail
 				s.Fail = true
+			}
+			if kinds[i] == "map" && i < nsrc-1 && r.Chance(1, 40) {
+				s.Cancel = true
 			}
 			ld.Srcs = append(ld.Srcs, s)
 		}
@@ -979,6 +1089,7 @@ func genCase(r *hx.Rand, tier string) caseT {
 		if r.Chance(1, 6) {
 			// a second Load runs concurrently and gets different content from the scripted sources
 			for i := 0; i < nsrc; i++ {
+				ld.Srcs[i].Cancel = false
 				s := ld.Srcs[i]
 				if s.Kind == "map" {
 					s.Fail = r.Chance(1, 12)
@@ -1046,6 +1157,17 @@ func genCase(r *hx.Rand, tier string) caseT {
 	return c
 }
 
+func lowerKeys(m map[string]any) map[string]any {
+	out := map[string]any{}
+	for k, v := range m {
+		if mm, ok := v.(map[string]any); ok {
+			v = lowerKeys(mm)
+		}
+		out[strings.ToLower(k)] = v
+	}
+	return out
+}
+
 func mapASCII(s string, lo, hi byte, d int) string {
 	b := []byte(s)
 	for i, c := range b {
@@ -1096,6 +1218,27 @@ func fixedCases() []caseT {
 			one(m("name", "x", "reject", true)),
 			one(m("name", "x", "server", "not-a-map")),
 			one(m("name", "second")),
+		}},
+		// a source that hands out the same map on every Load (like config.TestSource): a rejected Load
+		// and a later Load must not find that map modified
+		{NV: 1, Keys: []string{"db.host", "db.port", "db.pool"}, Loads: []loadT{
+			{Srcs: []srcT{{Kind: "static", M: m("db", m("host", "h", "port", 1))}, {Kind: "map", M: m("db", m("port", 2, "pool", 9))}}},
+			{Srcs: []srcT{{Kind: "static", M: m("db", m("host", "h", "port", 1))}, {Kind: "map", M: m("db", m("port", 3), "vfail0", true)}}},
+			{Srcs: []srcT{{Kind: "static", M: m("db", m("host", "h", "port", 1))}, {Kind: "map", M: m()}}},
+		}},
+		// an environment variable set to the empty string still overrides
+		{Keys: []string{"name", "server.host"}, Loads: []loadT{
+			{Srcs: []srcT{{Kind: "map", M: m("name", "file", "server", m("host", "h1"))}, {Kind: "env", M: m("NAME", "", "SERVER_HOST", "")}}},
+		}},
+		// a time key disappears between two Loads
+		{Bound: true, Keys: []string{"since"}, Loads: []loadT{
+			one(m("since", "2024-01-02T03:04:05Z", "wait", "2h", "meta", m("owner", "me"))),
+			one(m("name", "x")),
+		}},
+		// the context is cancelled while the first source is read
+		{Keys: []string{"a"}, Loads: []loadT{
+			one(m("a", 1)),
+			{Srcs: []srcT{{Kind: "map", M: m("a", 2), Cancel: true}, {Kind: "map", M: m("a", 3)}}},
 		}},
 		// two Loads racing: values and bound struct come from the same one
 		{Bound: true, Keys: []string{"name"}, Loads: []loadT{
